@@ -259,6 +259,23 @@ def kv_spec(rng, tagtext):
     return spec("kv", *args)
 
 
+def binary_reply_schedules():
+    """A reply with a binary part delivered in three reads: one ending INSIDE the payload, one ending exactly after the line feed that
+    closes it, the closing OK alone — for payloads of several sizes and every kind of first cut; as a single command (through the
+    cancelled idle) and inside the re-idle window.  -> [Sched]"""
+    out = []
+    for n in (5, 10, 64, 300, 5000):
+        head = len(f"binary: {n}\n")
+        for j in sorted({0, 1, 2, n // 2, max(0, n - 5), max(0, n - 4), n - 1}):
+            k1 = head + j                       # the first read ends after j bytes of the payload
+            k2 = (n - j) + 1                    # the second exactly after the payload's line feed
+            sp = spec("bin", str(n), "b")
+            out.append(Sched(labels=["D0", "c1:" + sp, "S*", "D3", "S*", f"D{k1}", f"D{k2}", "D0", "t200", "S*", "D0"] + flush(1), note=f"binary reply of {n} bytes cut {j} bytes into the payload, then right after it"))
+            out.append(Sched(labels=["D0", "c1:" + spec("echo", "a"), "S*", "D0", "S*", "D0", "c2:" + sp, "S*", f"D{k1}", f"D{k2}", "D0", "t200", "S*", "D0"] + flush(2), note=f"the same inside the re-idle window ({n}, {j})"))
+            out.append(Sched(labels=["D0", "i1:" + spec("echo", "a") + "," + sp + "," + spec("echo", "z"), "S*", "D3", "S*", "D" + str(len(b"line: echo a\nlist_OK\n") + k1), f"D{k2}", "D0", "t200", "S*", "D0"] + flush(1), note=f"the same inside a list ({n}, {j})"))
+    return out
+
+
 def gen_request(rng, rid, allow_fail=True, allow_bin=True):
     """-> (label, kind, specs)"""
     kind = rng.choice(["i", "i", "c"])
